@@ -90,7 +90,7 @@ prop('C04', True, "The lock operations are not modelled by hand: on every run th
 
 prop('C19', True, "Lean model of the helper loop and of is_failed() on an integer clock. Theorems: live_never_failed (for every run length and every sequence of round overshoots <= Delta, if sigma + rounds*(period+Delta) < expiry "
      "the lock's age stays below the expiry at every instant), start_inv, dead_eventually_failed (no refresh after the wake-up that finds the parent gone; failed from death+expiry on), terminates_parent_gone, "
-     "terminates_lock_gone. Whole lives of the helper (runEnv: any schedule of overshoots and of what each wake-up sees, ending at the first round whose loop condition fails): lock_gone_stops (the helper ends within `counter` rounds once the lock or the worker is gone for good), dead_worker_run (after any past, the first wake-up that finds the worker gone ends the life without a refresh; failed from that wake-up + expiry on), stopped_is_final, run_mtime_le_now, runEnv_live; tied by letting the real main() live on the simulated clock under random deaths, removals, overshoots and horizons and comparing running/exit instant/mtime/is_failed() with runEnv. The lock object's bookkeeping of its helper (Model/KeepAliveLock.lean: lock file, failed mark, self.monitor under get / release / fail and under removal of the file by others, the helper ending by itself, another worker taking the free lock): held_lock_has_helper (after every history a lock the object holds has a running helper it refers to), get_spec, let_go_stops_helper, no_orphans_without_interference; tied by running every operation sequence up to length 4 and random longer ones on the real lock class (Popen replaced by a stand-in) and comparing the state after every step. Bridges re-extracted on every run by driving the real main()/is_failed()/lock on a simulated clock: constants_safe (the re-extracted period, rounds and expiry tolerate wake-ups late by the assumed 10 s: 59 + rounds*(period+10) < expiry), loop_matches "
+     "terminates_lock_gone. Whole lives of the helper (runEnv: any schedule of overshoots and of what each wake-up sees, ending at the first round whose loop condition fails): lock_gone_stops (the helper ends within `counter` rounds once the lock or the worker is gone for good), dead_worker_run (after any past, the first wake-up that finds the worker gone ends the life without a refresh; failed from that wake-up + expiry on), stopped_is_final, run_mtime_le_now, runEnv_live, and both halves closed for the re-extracted constants (live_never_failed_code, dead_worker_code); tied by letting the real main() live on the simulated clock under random deaths, removals, overshoots and horizons and comparing running/exit instant/mtime/is_failed() with runEnv. The lock object's bookkeeping of its helper (Model/KeepAliveLock.lean: lock file, failed mark, self.monitor under get / release / fail and under removal of the file by others, the helper ending by itself, another worker taking the free lock): held_lock_has_helper (after every history a lock the object holds has a running helper it refers to), get_spec, let_go_stops_helper, no_orphans_without_interference; tied by running every operation sequence up to length 4 and random longer ones on the real lock class (Popen replaced by a stand-in) and comparing the state after every step. Bridges re-extracted on every run by driving the real main()/is_failed()/lock on a simulated clock: constants_safe (the re-extracted period, rounds and expiry tolerate wake-ups late by the assumed 10 s: 59 + rounds*(period+10) < expiry), loop_matches "
      "(call order of 125 real rounds = model), exits_match, helper_started_plainly (Popen argv/kwargs, release/fail kill the helper). Correspondence: real loop on the simulated clock for seconds..10 days, death at every "
      "offset, lock removal; plus a real helper process started by the real lock with a relative jug directory.",
      "Timing assumption (stated in the theorem): a round overshoots its sleep by less than Delta; a refresh racing the helper's own SIGKILL is not modelled; getppid()/kill() semantics trusted.",
